@@ -768,6 +768,16 @@ func (ts *TermStore) Mul(a, b *Term) *Term {
 
 func (ts *TermStore) UDiv(a, b *Term) *Term { return ts.bin(OpUDiv, a, b) }
 func (ts *TermStore) URem(a, b *Term) *Term {
+	if b.op == OpConst && a.w > 64 {
+		v := b.bigVal()
+		if v.Sign() > 0 && new(big.Int).And(v, new(big.Int).Sub(v, big1)).Sign() == 0 {
+			n := v.BitLen() - 1
+			if n == 0 {
+				return ts.Const(a.w, 0)
+			}
+			return ts.ZExt(ts.Extract(a, n-1, 0), a.w)
+		}
+	}
 	if b.op == OpConst && a.w <= 64 {
 		if k := b.k; k != 0 && k&(k-1) == 0 {
 			if k == 1 {
